@@ -176,6 +176,20 @@ def check_case(case):
             sig += "/key-name-occurs-in-basetype-name"
         out.append(dict(signature=sig, observed=list(got.items()), expected=list(exp.items())))
         break
+    # the result is a function of the table given, not of tables extrapolated before: right after this table, a table with
+    # the same type names in the same order whose templates differ (the second key of every chain renamed)
+    import re as _re
+    keys2 = sorted({_re.sub(r"[{}]", "", t.split("/")[2]).split(":")[0] for t in table.values() if t.count("/") >= 2})
+    if keys2 and not case.get("is_twin"):
+        ren = lambda t: "/".join(("{" + _re.sub(r"[{}]", "", p).split(":")[0] + "x" + ("}" if ":" not in p else ":" + p.split(":", 1)[1])) if i == 2 else p for i, p in enumerate(t.split("/")))
+        twin = {n: ren(t) for n, t in table.items()}
+        try:
+            got2 = dict(extrapolate_templates(dict(twin), list(to_x)))
+            exp2 = ref_extrapolate(dict(twin), list(to_x))
+            if list(got2.items()) != list(exp2.items()):
+                out.append(dict(signature="extrapolate/differs/after-a-table-with-the-same-type-names", observed=list(got2.items())[:8], expected=list(exp2.items())[:8]))
+        except Exception as e:  # noqa
+            out.append(dict(signature=f"extrapolate/exception/{type(e).__name__}/after-a-table-with-the-same-type-names", observed=repr(e), expected="a table"))
     # pattern replacing on the reference table
     for sel_name, kp in case.get("patterns", []):
         work = dict(exp)
